@@ -88,6 +88,24 @@ pub fn generated_seeds(thorough: bool) -> Vec<Seed> {
             }
         }
     }
+    // two attributes on one field, one with a function and one with a key (which of them `==` really uses decides
+    // what the hidden Eq assertion checks)
+    for (attr, derived) in &lists {
+        if !derived.contains(&Eq) {
+            continue;
+        }
+        for combo in Combo::all() {
+            let set: Vec<Arg> = Tr::ALL.iter().map(|&t| combo.get(t)).filter(|a| *a != Arg::None).collect();
+            if set.len() != 2 || !set.iter().all(|a| matches!(a, Arg::Key | Arg::By)) || set[0] == set[1] || !combo.uses_only_recognised(derived) {
+                continue;
+            }
+            if !derived.iter().all(|&t| ref_accept(&combo, t)) {
+                continue;
+            }
+            let it = single_field_item(Container::NamedStruct, Ctx::LastOf2, "V", &combo_attrs(&combo, KeyStyle::Distinct, KeyForm::Method), "");
+            v.push(seed(&format!("gen:cmp2:{}", combo.describe()), attr, &it.print()));
+        }
+    }
     // generic comparison with bounds
     v.push(seed("gen:cmp-bound", "PartialEq, PartialOrd, bound(T: Copy, ..)", "#[partial_ord(bound(T: PartialOrd))] struct X<T>(#[partial_eq(bound(..))] T, Option<T>);"));
     v.push(seed("gen:cmp-bound-enum", "Eq, PartialEq, Hash", "#[eq(bound(T: Eq))] enum X<T> { #[derive_ex(Hash(bound(T: ::core::hash::Hash)))] A(T), #[hash(bound(..))] B { #[eq(key = $.len())] x: Vec<T> } }"));
